@@ -120,6 +120,7 @@ Definition post (s s' : cstate) (o : couts) : Prop :=
        Fpos s' = Fpos s + c_atake s /\ shape s' /\ 0 < c_racc s' <= rb /\ c_rcarry s' = 0 /\
        Z.abs (c_acarry s' - c_acarry s) <= 1) /\
   (o = OuterBreak ->
+     zn rsz * rb <= Fpos s + c_atake s /\ length (c_res s') = rsz /\
      exists K, Vres (c_res s') = Vres (c_res s) + 2 ^ Fpos s * c_anorm s + 2 ^ (zn rsz * rb) * K).
 
 Lemma Fpos_nonneg (s : cstate) : (c_rlimb s < rsz)%nat -> 0 <= c_racc s <= rb -> 0 <= Fpos s.
@@ -197,6 +198,7 @@ Proof.
       { unfold x0. rewrite N1r. assert (2 ^ (scale + w) <= 2 ^ 62) by (apply pow2_le_mono; unfold scale; lia). lia. }
       unfold middle_step_assign. rewrite (mc64 rb Hrb 0 x0 (c_rcarry s)); [|lia|exact Hx0|rewrite Hrc; cbn; lia].
       cbn [fst snd c_res]. split; [discriminate|]. split; [discriminate|]. intros _.
+      split; [clear - Hal; lia|]. split; [rewrite upd_length; exact L1|].
       rewrite Hrc, Z.pow_0_r, Z.mul_1_r, Z.add_0_r.
       exists (- n1 - bdiv rb x0).
       rewrite Vres_upd by (auto; lia). fold x0. rewrite V1.
@@ -220,11 +222,13 @@ Proof.
         assert (Hr0 : racc1 = 0).
         { destruct (Z.eqb_spec racc1 0) as [|Hne]; [assumption|]. cbn [orb] in Eb.
           apply Nat.eqb_eq in Eb. rewrite Eb in Ec. cbn [andb] in Ec. apply Z.eqb_neq in Ec. lia. }
-        exists (- n1). rewrite V1.
         pose proof (Fpos_nonneg s Sr ltac:(lia)) as HF0.
+        assert (EFw : zn rsz * rb = Fpos s + w).
+        { unfold Fpos, racc1 in *. rewrite Erl. change (zn 0) with 0. lia. }
+        split; [clear - EFw Hw; lia|]. split; [exact L1|].
+        exists (- n1). rewrite V1.
         assert (EF : 2 ^ (zn rsz * rb) = 2 ^ Fpos s * 2 ^ w).
-        { rewrite <- pow2_add by lia. f_equal.
-          unfold Fpos, racc1 in *. rewrite Erl. change (zn 0) with 0. lia. }
+        { rewrite <- pow2_add by lia. f_equal. exact EFw. }
         rewrite EF. rewrite <- Hdec. ring.
       * (* move on to the next res limb *)
         assert (Hr0 : racc1 = 0).
@@ -236,9 +240,10 @@ Proof.
         assert (F2 : Fpos s2 = Fpos s + w).
         { unfold Fpos, s2. cbn [c_rlimb c_racc]. unfold racc1, zn. rewrite Nat2Z.inj_sub by lia. cbn. ring. }
         assert (Sh2 : shape s2).
-        { unfold shape, s2. cbn [c_res c_rlimb c_racc]. split; [exact L1|]. split; [lia|].
-          split; [intros i Hi; apply N1z; lia|].
-          rewrite N1z by lia. rewrite Hr0. replace (rb - (0 + rb)) with 0 by lia. cbn. lia. }
+        { unfold shape, s2. cbn [c_res c_rlimb c_racc]. split; [exact L1|]. split; [clear - Sr Erl; lia|].
+          split; [intros i Hi; apply N1z; clear - Hi Erl; lia|].
+          rewrite N1z by (clear - Erl; lia). rewrite Hr0. replace (rb - (0 + rb)) with 0 by (clear; lia).
+          cbn. clear; lia. }
         destruct (Z.eqb_spec atake1 0) as [E0|E0].
         -- cbn [fst snd]. split; [discriminate|]. split; [|discriminate]. intros _.
            destruct (Hdone E0) as (D1 & D2 & D3).
@@ -261,16 +266,19 @@ Proof.
            { rewrite F2. apply pow2_add; [|lia]. apply Fpos_nonneg; [exact Sr|lia]. }
            split; [exact P1|]. split.
            ++ intros Ho. destruct (P2 Ho) as (Pi1 & Q1 & Q2 & Q3 & Q4 & Q5 & Q6 & Q7 & Q8).
-              unfold s2 in Q1, Q2, Q3, Q8. cbn [c_anorm c_atake c_acarry c_res] in Q1, Q2, Q3, Q8. fold s2 in Q3.
+              change (c_anorm s2) with n1 in Q1. change (c_atake s2) with atake1 in Q1, Q2.
+              change (c_acarry s2) with (c_acarry s) in Q1, Q8. change (c_res s2) with res1 in Q3.
               exists (d + 2 ^ w * Pi1).
               split; [rewrite Ea; rewrite <- Hdec, Q1; ring|].
               split; [rewrite Ea; apply pieces_bound; [lia|lia|exact Hdr|exact Q2]|].
               split; [rewrite Q3, V1, EF; ring|].
-              split; [rewrite Q4, F2; unfold s2; cbn [c_atake]; unfold atake1; ring|].
+              split; [rewrite Q4, F2; change (c_atake s2) with atake1; unfold atake1; ring|].
               split; [exact Q5|]. split; [exact Q6|]. split; [exact Q7|exact Q8].
-           ++ intros Ho. destruct (P3 Ho) as (K & Q).
-              unfold s2 in Q at 2. cbn [c_res c_anorm] in Q. exists K.
-              rewrite Q, V1, EF. rewrite <- Hdec. ring.
+           ++ intros Ho. destruct (P3 Ho) as (Q0 & QL & K & Q).
+              change (c_res s2) with res1 in Q. change (c_anorm s2) with n1 in Q.
+              change (c_atake s2) with atake1 in Q0.
+              split; [rewrite F2 in Q0; unfold atake1 in Q0; clear - Q0; lia|]. split; [exact QL|].
+              exists K. rewrite Q, V1, EF. rewrite <- Hdec. ring.
   - (* the res limb is not full and more a-limbs follow: this a-limb is exhausted *)
     apply Bool.orb_false_iff in Eb. destruct Eb as [Eb _]. apply Z.eqb_neq in Eb.
     destruct (Z.eqb_spec atake1 0) as [E0|E0]; [|lia].
